@@ -15,7 +15,8 @@ THEOREMS = [
     "TornadoModel.C08.client_body_le_limit",
     "TornadoModel.C08.witness_model",
     "TornadoModel.C08.witness_spec",
-    "TornadoModel.C08.gzip_strict_refuted",
+    "TornadoModel.C08.gzip_trailing_refuted",
+    "TornadoModel.C08.gzip_truncated_rejected",
     "TornadoModel.C08.step_append",
     "TornadoModel.C08.feed_append",
     "TornadoModel.C08.client_segmentation_independent",
@@ -24,7 +25,7 @@ THEOREMS = [
     "TornadoModel.C08.read_agree",
     "TornadoModel.C08.client_agrees_with_spec",
     "TornadoModel.C08.client_agrees_with_spec_gz",
-    "TornadoModel.C08.interim_sticky_refuted",
+    "TornadoModel.C08.interim_flag_irrelevant",
     "TornadoModel.C08.gzChunk_le",
     "TornadoModel.C08.deliver_gz_le",
     "TornadoModel.C08.pieces_ok",
@@ -72,10 +73,13 @@ CLAUSES = {
                                      "cfg / zlib oracle / eof); also exercised by the tie (>= 3 segmentations of every stream)",
     "returns the status, headers and body a strict reader extracts, or fails when that reader rejects":
         "client_agrees_with_spec (decompress_response off: run on the whole stream = Spec.readAll, all framings, 1xx chains, limits) + "
-        "client_agrees_with_spec_gz (decompress_response on, under the explicit decidable side conditions interimGz = false and "
-        "ZOk on the body handed to zlib); the side conditions are necessary: gzip_strict_refuted (truncated member accepted) and "
-        "interim_sticky_refuted (1xx Content-Encoding sticky) -- both known findings; with client_segmentation_independent this "
-        "covers every segmentation; Spec.readAll is also the oracle on every case",
+        "client_agrees_with_spec_gz (decompress_response on, under the one explicit decidable side condition ZOk on the body handed "
+        "to zlib: the decompressor left no data behind the first member); the side condition is necessary: "
+        "gzip_trailing_refuted (data after the first gzip member silently dropped -- the one known finding left, see docs/C08.md "
+        "for why it is recorded and not repaired); a truncated member and Content-Encoding on a 1xx are covered since the two "
+        "fix: commits (gzip_truncated_rejected: a body that stops inside the member fails the fetch, all streams; "
+        "interim_flag_irrelevant: the decompressor state an interim response leaves behind is never consulted); with "
+        "client_segmentation_independent this covers every segmentation; Spec.readAll is also the oracle on every case",
     "body delivered (after decompression) never exceeds max_body_size":
         "client_body_le_limit (the body of a successful fetch: all framings, all segmentations) + streamed_le_limit (the bytes "
         "handed to streaming_callback so far, at every delivery, for every stream / segmentation / zlib behaviour, whether the "
@@ -700,12 +704,18 @@ def signature(case, impl, why):
     g = case.get("gz")
     s = _stream(case)
     if case["decompress"] and cls in ("accepts-rejected", "wrong-result", "fails-valid"):
+        # an interim (1xx) response carries Content-Encoding: gzip and the final response does not (only then can the
+        # decompressor of the interim response have touched the final body; a final response with its own
+        # Content-Encoding: gzip gets a decompressor of its own and is classified by its gzip status below)
         blocks = re.split(rb"\r?\n\r?\n", s)
+        interim_gz = False
         for b in blocks[:-1]:
+            gzh = re.search(rb"\ncontent-encoding:[ \t]*gzip", b.lower()) is not None
             if not re.match(rb"[\r\n]*HTTP/1\.[0-9] 1[0-9][0-9] ", b):
+                if interim_gz and not gzh:
+                    return "resp/interim-content-encoding-sticky"
                 break
-            if re.search(rb"\ncontent-encoding:[ \t]*gzip", b.lower()):
-                return "resp/interim-content-encoding-sticky"
+            interim_gz = interim_gz or gzh
     if g and cls in ("accepts-rejected", "wrong-result", "fails-valid"):
         tags.append("gz-" + g[2])
     if not tags and re.match(rb"[\r\n]*HTTP/1\.[0-9] 1[0-9][0-9] ", s):
